@@ -111,6 +111,10 @@ struct Inj {
 }
 
 pub fn run_c14(ctx: &mut RunCtx) -> RunResult {
+    // a third of the runs exercise the endhost side: the socket receive loop over a simulated underlay
+    if ctx.ch.chance(1, 3) {
+        return crate::sock::run_sock(ctx);
+    }
     let mut w = topo::draw(ctx);
     let n = w.m.ases.len();
     // hosts: one per AS for a drawn subset (always at least two if the topology has two ASes)
